@@ -165,7 +165,7 @@ Definition uses_top (t : top) : list name :=
   match t with
   | TAlias => [Sys]
   | TPatch => [Random]
-  | TFixture => [Pytest; Random]
+  | TFixture => [Pytest]          (* the fixture imports random locally under a private name *)
   | _ => []
   end.
 
